@@ -42,3 +42,52 @@ Proof.
     + intros H. inversion H; subst. split; [|assumption]. intros y Hy. apply tx_compatible_spec.
       rewrite Forall_forall in H2. apply H2. exact Hy.
 Qed.
+
+(* ---- C17: meaning of the graph checkers ---- *)
+Inductive Reach (g : graph) : N -> N -> Prop :=
+| reach_edge : forall a b, In (a, b) (g_edges g) -> Reach g a b
+| reach_trans : forall a b c, Reach g a b -> Reach g b c -> Reach g a c.
+
+(* inv_edges: every dependency is strictly older than its dependent, hence no cycle *)
+Lemma inv_edges_older : forall g, inv_edges g = true ->
+  forall a b, Reach g a b -> seq_of g a < seq_of g b.
+Proof.
+  intros g H. unfold inv_edges in H. apply andb_true_iff in H. destruct H as [_ H].
+  rewrite forallb_forall in H. induction 1 as [a b Hin | a b c _ IH1 _ IH2].
+  - specialize (H (a, b) Hin). cbn [fst snd] in H.
+    apply andb_true_iff in H. destruct H as [_ H]. lia.
+  - lia.
+Qed.
+
+Lemma inv_edges_acyclic : forall g, inv_edges g = true -> forall a, ~ Reach g a a.
+Proof. intros g H a R. pose proof (inv_edges_older g H a a R). lia. Qed.
+
+(* cascadeb: a transaction that left without being included took all its dependents with it *)
+Lemma cascadeb_spec : forall s, cascadeb s = true <->
+  forall p c, In (p, c) (g_edges (pre_g s)) -> has_node (post_g s) p = false ->
+              ~ In p (included s) -> has_node (post_g s) c = false.
+Proof.
+  intros s. unfold cascadeb. rewrite forallb_forall. split.
+  - intros H p c Hin Hp Hi. specialize (H (p, c) Hin). cbn [fst snd] in H.
+    apply orb_true_iff in H. destruct H as [H|H].
+    + apply orb_true_iff in H. destruct H as [H|H]; [congruence|]. apply memN_In in H. contradiction.
+    + apply negb_true_iff in H. exact H.
+  - intros H [p c] Hin. cbn [fst snd]. destruct (has_node (post_g s) p) eqn:Ep; [reflexivity|].
+    destruct (memN p (included s)) eqn:Ei; [reflexivity|]. cbn [orb].
+    apply negb_true_iff. apply (H p c); [exact Hin | exact Ep | apply memN_false; exact Ei].
+Qed.
+
+(* parents_first: every pool parent of an extracted transaction was handed out before it *)
+Lemma parents_first_spec : forall g xs seen, parents_first g seen xs = true ->
+  forall l1 x l2, xs = l1 ++ x :: l2 -> forall p, In p (parents g x) -> In p seen \/ In p l1.
+Proof.
+  intros g. induction xs as [|y r IH]; intros seen H l1 x l2 E p Hp.
+  - destruct l1; discriminate.
+  - cbn [parents_first] in H. apply andb_true_iff in H. destruct H as [H1 H2].
+    destruct l1 as [|z l1]; cbn [app] in E; inversion E; subst.
+    + left. rewrite forallb_forall in H1. apply memN_In. apply H1. exact Hp.
+    + destruct (IH (z :: seen) H2 l1 x l2 eq_refl p Hp) as [[Hs|Hs]|Hs].
+      * right. left. exact Hs.
+      * left. exact Hs.
+      * right. right. exact Hs.
+Qed.
